@@ -98,6 +98,9 @@ type FuncEnc struct {
 	assumedCallees map[string]bool
 	inlinedCallees map[string]bool
 	usedContracts  map[string]bool
+	seenRefs       []string               // reference-valued terms computed so far (see noteRef)
+	curGuard       string                 // path condition of the instruction being encoded (guards the facts stated for it)
+	loopWritten    map[string]bool        // refs of non-escaping locals stored to inside the loop being cut (not restored by its havoc)
 	usedFns        map[*ssa.Function]bool // callees whose contract was applied at a call site
 	usedIfaces     map[string]bool        // interface-method contracts applied at invoke sites
 	pass           int
@@ -203,7 +206,21 @@ func (fe *FuncEnc) assume(expr string) {
 		fe.emit("(assert " + expr + ") ; axiom")
 		return
 	}
+	// A fact stated while an instruction is being encoded holds where that instruction executes, not everywhere:
+	// stated unconditionally, "the new byte array has length n-16" makes every path with n < 16 infeasible and whatever
+	// is checked there vacuous (measured: cfbCipher.Decrypt's error path).
+	if g := fe.curGuard; g != "" && g != "true" && !strings.HasPrefix(expr, "(=> "+g+" ") {
+		expr = "(=> " + g + " " + expr + ")"
+	}
 	fe.emit("(assert " + expr + ")")
+}
+
+// assumeGlobal states a fact that does not depend on where the current instruction executes (definitional equations).
+func (fe *FuncEnc) assumeGlobal(expr string) {
+	g := fe.curGuard
+	fe.curGuard = ""
+	fe.assume(expr)
+	fe.curGuard = g
 }
 
 func (fe *FuncEnc) note(f string, a ...interface{}) {
@@ -388,6 +405,9 @@ func (fe *FuncEnc) havocHeaps(st *State, why string, only func(name string) bool
 			fe.assume(fmt.Sprintf("(forall ((qb Int)) (! (= (str.len (select %s qb)) (str.len (select %s qb))) :pattern ((select %s qb))))", n, old, n))
 		}
 		for _, r := range sortedKeys(fe.protected) {
+			if fe.loopWritten[r] {
+				continue // a local written in the loop being cut: its value at the loop head is not its value before the loop
+			}
 			fe.assume(fmt.Sprintf("(= (select %s %s) (select %s %s))", n, r, old, r))
 		}
 	}
@@ -501,13 +521,35 @@ func (fr *Frame) setVal(v ssa.Value, expr string) Term {
 	fe.define(n, k, expr)
 	t := Term{n, k, v.Type()}
 	fr.vals[v] = t
+	fe.noteRef(t)
 	return t
 }
 
 func (fr *Frame) setHavoc(v ssa.Value) Term {
 	t := fr.fe.havocVal(fr.name(v), v.Type())
 	fr.vals[v] = t
+	fr.fe.noteRef(t)
 	return t
+}
+
+// noteRef remembers reference-valued terms computed so far: an object allocated later is none of them (a reference read
+// from the heap before an allocation cannot be that allocation).
+func (fe *FuncEnc) noteRef(t Term) {
+	if t.T == nil {
+		return
+	}
+	switch {
+	case t.K == SSlice:
+		fe.seenRefs = append(fe.seenRefs, "(s_base "+t.S+")")
+	case t.K == SInt:
+		switch t.T.Underlying().(type) {
+		case *types.Pointer, *types.Map, *types.Chan:
+			fe.seenRefs = append(fe.seenRefs, t.S)
+		}
+	}
+	if len(fe.seenRefs) > 120 {
+		fe.seenRefs = fe.seenRefs[len(fe.seenRefs)-120:]
+	}
 }
 
 func shortFn(fn *ssa.Function) string {
@@ -658,7 +700,7 @@ func (fe *FuncEnc) elemRead(hv string, hsort Sort, s, idx string, es Sort) strin
 		link := fmt.Sprintf("(= %s (select (select %s (s_base %s)) (+ (s_off %s) %s)))", t, hv, s, s, idx)
 		if !fe.linked[link] {
 			fe.linked[link] = true
-			fe.assume(link)
+			fe.assumeGlobal(link) // a definition of the read, true on every path (and emitted once)
 		}
 	}
 	return t
